@@ -438,6 +438,10 @@ pub enum Op {
     /// `GenericWriteStorage::remove` returns nothing: the harness reads the value first and does not log its destruction,
     /// so that the line reads like `rem`.
     Generic(Box<Op>),
+    /// `uins k @h v` (C19): the same insertion (inner op is `Ins`) executed from the destructor of a scope guard WHILE a
+    /// destructor panic unwinds (`std::thread::panicking()` is true during the whole call); the unwind is caught. An insertion
+    /// is an insertion whenever it runs: same model operation, same result, nothing destroyed but a replaced value.
+    Unwinding(Box<Op>),
     /// `lget` / `lgetmut`: the same look-up through a lending join of the one storage,
     /// `(&st).lend_join().get(e, &entities)` / `(&mut st).lend_join().get(e, &entities)` (`JoinLendIter::get`): same model ops.
     Lend(Box<Op>),
@@ -552,6 +556,7 @@ pub fn show_op(op: &Op) -> String {
         Op::DropWorld => s.push_str("drop_world"),
         Op::Fault(n) => write!(s, "fault {}", n).unwrap(),
         Op::Generic(inner) => { s.push('g'); s.push_str(&show_op(inner)); }
+        Op::Unwinding(inner) => { s.push('u'); s.push_str(&show_op(inner)); }
         Op::Lend(inner) => { s.push('l'); s.push_str(&show_op(inner)); }
         Op::LendDrain2(k, h) => write!(s, "ldrain2 {} @{}", k, h).unwrap(),
         Op::LendEntry2(k, h, v) => write!(s, "lentry2 {} @{} {}", k, h, v).unwrap(),
@@ -665,6 +670,11 @@ pub fn parse_ops(ts: &[&str]) -> Option<Op> {
             let mut v: Vec<&str> = vec![&g[1..]];
             v.extend_from_slice(rest);
             Op::Generic(Box::new(parse_ops(&v)?))
+        }
+        ["uins", rest @ ..] => {
+            let mut v: Vec<&str> = vec!["ins"];
+            v.extend_from_slice(rest);
+            Op::Unwinding(Box::new(parse_ops(&v)?))
         }
         [g, rest @ ..] if ["lget", "lgetmut"].contains(g) => {
             let mut v: Vec<&str> = vec![&g[1..]];
@@ -1091,6 +1101,24 @@ fn exec_inner(world: &mut World, ctx: &Shared, op: &Op) -> String {
         }
         Op::DropWorld => "dropped".into(), // handled by Exec::exec (needs ownership)
         Op::Fault(_) => "ok".into(),        // handled by Exec::exec
+        Op::Unwinding(inner) => {
+            // `_bomb` is destroyed first and its destructor panics; `_guard` is destroyed while that panic unwinds and
+            // performs the inner operation on the world (a panic of the inner operation is caught inside the guard).
+            struct Bomb;
+            impl Drop for Bomb { fn drop(&mut self) { panic!("verif: destructor panic (unwinding probe)"); } }
+            struct Guard<'a>(&'a mut World, &'a Shared, &'a Op, &'a mut Option<String>);
+            impl<'a> Drop for Guard<'a> {
+                fn drop(&mut self) {
+                    let unwinding = std::thread::panicking();
+                    let r = catch_unwind(AssertUnwindSafe(|| exec_inner(self.0, self.1, self.2)));
+                    *self.3 = Some(match r { Ok(s) if unwinding => s, Ok(_) => "notunwinding".into(), Err(_) => "panic".into() });
+                }
+            }
+            let mut out: Option<String> = None;
+            let r = catch_unwind(AssertUnwindSafe(|| { let _guard = Guard(world, ctx, inner, &mut out); let _bomb = Bomb; }));
+            if r.is_ok() { return "nopanic".into(); }
+            out.unwrap_or_else(|| "notrun".into())
+        }
         Op::Generic(inner) => {
             use specs::storage::{GenericReadStorage, GenericWriteStorage};
             match &**inner {
@@ -1599,6 +1627,19 @@ pub fn gen_store_script(rng: &mut Rng, len: usize, p: &StoreProfile) -> Vec<Op> 
                 ops.push(op);
                 ops.push(Op::Dump);
                 if flagged { ops.push(Op::LazyFlagCheck); ops.push(Op::Maintain); ops.push(Op::LazyFlagCheck); }
+                // every other time an insertion performed WHILE a destructor panic unwinds (scope guard), mostly for an
+                // entity whose storage slot is free. (Own generator state: the rest of the script stays what it was.)
+                if !p.kinds.is_empty() && nlog > 0 && (val + i as i64) % 2 == 0 {
+                    let mut r2 = Rng::new((val as u64).wrapping_mul(131).wrapping_add(i as u64));
+                    for j in 0..r2.range(1, 3) {
+                        let k = *r2.pick(&p.kinds);
+                        let h = if r2.chance(1, 4) { pick_slot(&mut r2, nlog) } else { nlog - 1 - r2.below(nlog.min(4) as u64) as usize };
+                        // values of their own range: the counter `val` (and with it the rest of the script) is left alone
+                        let v = 1_000_000 + 4 * i as i64 + j as i64;
+                        ops.push(Op::Unwinding(Box::new(Op::Ins(k, h, if is_null_kind(k) { 0 } else { v }))));
+                    }
+                    ops.push(Op::Dump);
+                }
                 continue;
             }
         }
